@@ -4,6 +4,7 @@ import SMV.Props.C13
 import SMV.Props.C15
 import SMV.Props.RefineVeto
 import SMV.Props.RefineData
+import SMV.Props.C13Complete
 namespace SMV.Witness
 open SMV
 
@@ -216,6 +217,33 @@ example : ∃ d0 df rs, dynNew exM.code (partsOf exM) 7 = some d0 ∧
   refine ⟨_, df, rs, hnew, hrun, ?_, ?_⟩
   · rw [hrs]; decide
   · rw [hfs]; decide
+
+
+/-- the concrete definition satisfies the parser's rules and its machine the validator's: the hypotheses of
+    `macro_accepts` are satisfiable, and it yields what `ex_parses` / `ex_validates` computed -/
+example : ParserRules exDef := by
+  refine ⟨by decide, by decide, by decide, by decide, ?_, ?_⟩
+  · intro items hi
+    simp only [exDef, List.mem_cons, List.mem_nil_iff, or_false, reduceCtorEq, false_or, TopItem.states.injEq] at hi
+    subst hi
+    exact ⟨⟨by decide, by decide, by decide⟩, by decide, by decide⟩
+  · intro blocks hb
+    simp only [exDef, List.mem_cons, List.mem_nil_iff, or_false, reduceCtorEq, false_or, TopItem.events.injEq] at hb
+    subst hb
+    intro b hb'
+    simp only [List.mem_cons, List.mem_nil_iff, or_false] at hb'
+    rcases hb' with rfl | rfl
+    · refine ⟨by decide, ?_⟩
+      intro tb htb
+      simp only [trBlocks, List.mem_cons, List.mem_nil_iff, or_false] at htb
+      rcases htb with rfl | rfl <;> exact ⟨by decide, by decide, by decide⟩
+    · refine ⟨by decide, ?_⟩
+      intro tb htb
+      simp only [trBlocks, List.mem_cons, List.mem_nil_iff, or_false] at htb
+      subst htb
+      exact ⟨by decide, by decide, by decide⟩
+
+example : C13.Valid exM := (C13.validate_iff exM).mp ex_validates
 
 
 end SMV.Witness
